@@ -1007,6 +1007,8 @@ pub struct TCfg {
     pub dgram_recv: Option<Option<usize>>,
     pub dgram_send: Option<usize>,
     pub initial_rtt_ms: Option<u64>,
+    /// TransportConfig::send_fairness (round-robin between streams of equal priority)
+    pub send_fairness: bool,
 }
 
 #[derive(Debug, Clone, Copy, PartialEq, Eq)]
@@ -1049,6 +1051,7 @@ impl Default for TCfg {
             dgram_recv: None,
             dgram_send: None,
             initial_rtt_ms: None,
+            send_fairness: true,
         }
     }
 }
@@ -1113,6 +1116,7 @@ impl TCfg {
         t.initial_mtu(self.initial_mtu);
         t.min_mtu(self.min_mtu);
         t.enable_segmentation_offload(self.gso);
+        t.send_fairness(self.send_fairness);
         if let Some(d) = self.dgram_recv {
             t.datagram_receive_buffer_size(d);
         }
